@@ -7,3 +7,6 @@ import "github.com/WuKongIM/WuKongIM/pkg/db/internal/engine"
 func ZZC13ResetStores() { engine.ZZResetStores() }
 
 func ZZC13Dump(path string) (keys [][]byte, values [][]byte) { return engine.ZZDump(path) }
+
+// ZZC13SlotAppliedKey is the key of the slot's durable applied index (recovery bookkeeping).
+func ZZC13SlotAppliedKey(slot uint64) []byte { return encodeSlotAppliedIndexKey(slot) }
